@@ -31,11 +31,11 @@ META = {
             "residual, equivalently the computed sequence is the EXACT response over R to the inputs with a disturbance r_k within the "
             "residual bound added at the summing node, and computed = exact + (exact response of the all-pole filter 1/den to r); no "
             "bound on that propagated error and no perturbed-INPUT form is claimed (they depend on the stability of 1/den, 1/num). "
-            "FLOAT RUN = ROUNDED-REAL RUN (Common/F64Refine.v, C16/LpfFloat.v, 4 theorems): on Coq's primitive binary64 floats - the "
+            "FLOAT RUN = ROUNDED-REAL RUN (Common/F64Refine.v, C16/LpfFloat.v, 5 theorems): on Coq's primitive binary64 floats - the "
             "instance compared bit for bit with the C - one a_lpf_iter step for every finite alpha in [0,1] and finite state/sample up "
             "to 2^1022 is finite and its real value is the rounded-real step; a run of ANY length likewise while the rounded-real "
             "outputs stay below 2^1022, and whenever the two corners of [-M,M] are stable every float run on data in [-M,M] stays "
-            "finite and in [-M,M] (no overflow, no NaN); one a_hpf_iter step likewise up to 2^1021. "
+            "finite and in [-M,M] (no overflow, no NaN); one a_hpf_iter step, and a high-pass run of any length under the same kind of guard, likewise up to 2^1021. "
             "Tie: bit-exact binary64 run of the same terms vs the C. Glue around the modelled core (differential tests, "
             "not theorems): the 11 C++ member functions of a_tf, a_lpf and a_hpf (list read from the headers on every run; those of "
             "a_lpf/a_hpf repeat the C inline bodies) against the C functions they stand for, all state and both delay lines compared bit "
